@@ -2,7 +2,7 @@
   C04, object-layer memory safety as theorems — third continuation (same statement shape `Safe` as C04_allocsafe{,2,3}.lean:
   `ok = true`, destination well formed, every other variable untouched, value-level view = the list-level result; plus the
   integer identity).  Property theorems only; helper lemmas live in MpirProofs/Lemmas/AllocSafeCfdiv2.lean (mpz/cfdiv_q_2exp.c),
-  AllocSafeAorsmul.lean (mpz/aorsmul_i.c, aorsmul.c), AllocSafeMulC.lean (mpz/mul.c), AllocSafeTdiv.lean (mpz/tdiv_q.c, tdiv_r.c).
+  AllocSafeAorsmul.lean (mpz/aorsmul_i.c, aorsmul.c), AllocSafeMulC.lean (mpz/mul.c), AllocSafeTdiv.lean (mpz/tdiv_q.c, tdiv_r.c), AllocSafeMpf.lean (mpf/urandomb.c).
 
   Models: Mpir/Model/AllocSafeMpz3.lean (cfdiv_q_2exp), Mpir/Model/AllocSafeMpz4.lean (everything else here).
   Tied by ops `as3_cdiv_q_2exp`, `as3_fdiv_q_2exp` (part c04_allocsafe3) and `as4_*` (harness/ops_allocsafe4.c; ALLOC SIZ value
@@ -13,6 +13,7 @@ import MpirProofs.Lemmas.AllocSafeCfdiv2
 import MpirProofs.Lemmas.AllocSafeAorsmul
 import MpirProofs.Lemmas.AllocSafeMulC
 import MpirProofs.Lemmas.AllocSafeTdiv
+import MpirProofs.Lemmas.AllocSafeMpf
 import MpirProofs.Props.C01_mpz
 namespace Mpir.AllocSafe
 open Mpir
@@ -248,5 +249,30 @@ example : (mpz_tdiv_r ex5 2 1 2).map (fun s => (s.ok, view (s.h 2))) = some (tru
 example : (mpz_tdiv_r ex5 3 0 2).map (fun s => (s.ok, view (s.h 3))) = some (true, ⟨2, 1, [5]⟩) := by decide
 -- negative: `MPZ_REALLOC (rem, dl - 1)` — mpn_tdiv_qr's dl remainder limbs do not fit
 example : (tdiv_r 1 ex5 0 1 2).map (fun s => s.ok) = some false := by decide
+
+/-! ## mpf_urandomb (mpf/urandomb.c): a destination of PREC + 1 limbs that is never reallocated -/
+
+/-- mpf_urandomb, for every destination (block of `PREC + 1` limbs, as mpf_init2 makes it), generator state and bit count:
+    `nlimbs = BITS_TO_LIMBS (nbits)` is clamped to `PREC + 1`, so the `nlimbs` limbs `_gmp_rand` stores, the in-place
+    mpn_lshift and the strip loop stay inside the block; SIZ, EXP and the limbs are those of C19's value-level model
+    (`Rand.mpfUrandomb`), the generator is left in the same state, the block is not touched beyond `PREC + 1` limbs. -/
+theorem mpf_urandomb_dest_safe (s : FSt) (g : Rand.Gen) (nbits : Nat) (hs : s.ok = true) (hw : FWF s) :
+    (mpf_urandomb 0 s g nbits).1.ok = true ∧
+    (mpf_urandomb 0 s g nbits).1.out = (s.o.prec + 1, (Rand.mpfUrandomb g s.o.prec nbits).1) ∧
+    (mpf_urandomb 0 s g nbits).2 = (Rand.mpfUrandomb g s.o.prec nbits).2 ∧
+    FWF (mpf_urandomb 0 s g nbits).1 :=
+  mpf_urandomb_alloc_safe s g nbits hs hw
+
+/-- negative (the seeded bug of the brief), for ALL destinations and generators: with `prec = PREC (rop) + 1` any request of
+    more than `64 (PREC + 1)` bits stores `PREC + 2` limbs. -/
+theorem mpf_urandomb_seeded_unsafe (s : FSt) (g : Rand.Gen) (nbits : Nat) (hw : FWF s)
+    (hn : 64 * (s.o.prec + 1) < nbits) : (mpf_urandomb 1 s g nbits).1.ok = false :=
+  mpf_urandomb_prec_plus_one_unsafe s g nbits hw hn
+
+-- a destination of mpf_init2 (f, 64) (PREC = 2, three limbs), the default generator, 200 bits requested
+example : (mpf_urandomb 0 (mkF 2) (.mt Rand.mtDefault) 200).1.ok = true :=
+  (mpf_urandomb_dest_safe _ _ _ rfl ⟨by simp [mkF, Buf.new], rfl⟩).1
+example : (mpf_urandomb 1 (mkF 2) (.mt Rand.mtDefault) 200).1.ok = false :=
+  mpf_urandomb_seeded_unsafe _ _ _ ⟨by simp [mkF, Buf.new], rfl⟩ (by decide)
 
 end Mpir.AllocSafe
